@@ -25,6 +25,14 @@ CHECKS = {
     'C09': dict(text="Bounded model checking by solver: SD/MAD/TrueRange/ATR >= 0 and no sqrt of a negative value, Minimum <= Maximum, band/exit ordering for every multiplier in [0,1000], "
                      "histogram identities (MACD with symbolic periods), SMA/WMA/EMA inside their hull, for all real inputs, n<=4 (5), t<=2n+3 (3n+3); violations replayed natively.",
                 technique="symbolic execution of rustc MIR into z3 (exact reals); native replay", design='4/C09'),
+    'C13': dict(text="Solver-decided absence of algebraic drift for ALL stream lengths at fixed period n<=4 (6): one inductive step of the real next() from every reachable cursor state with "
+                     "symbolic window contents (SMA, WMA, SD, BB, MAD: output equals the from-scratch statistic, every accumulator and ring slot re-established), plus bounded unrolling "
+                     "from new() at t=3n+4 (4n+4) for SMA/WMA/SD/BB/MAD/Min/Max/CCI/MFI. Accumulated floating-point rounding over 10^6 steps is NOT decided (stated in the evidence).",
+                technique="one-step induction + bounded unrolling by symbolic execution of rustc MIR into z3 (exact reals)", design='4/C13'),
+    'C17': dict(text="Bounded model checking by solver: for SMA, WMA, SD, MAD, Min, Max, FastStochastic, BB, CCI (last n) and ROC, ER, MFI (last n+1): an instance fed an arbitrary symbolic prefix "
+                     "(<= n+3 inputs, unconstrained magnitude) then a suffix returns exactly the output of a fresh instance fed the suffix only, n<=4 (5); too-short suffixes must be able "
+                     "to differ (witness); violations replayed natively with the property's tolerance.",
+                technique="symbolic execution of rustc MIR into z3, two instances with different ring rotation compared; native replay", design='4/C17'),
 }
 NA = {
     'C19': "decided by rustc's type checker once and for all; there is no input, state or schedule for an SMT/SAT solver to quantify over",
